@@ -210,4 +210,33 @@ pub fn run(ctx: &mut Ctx) {
             report(ctx, &m, 0, enc, dec, f);
         }
     }
+    // deep chains: every depth up to the decoder's documented limit (127 nested containers; for Hayson a grid costs
+    // three JSON levels of serde_json's 128, so grid chains stop at 42)
+    if ctx.shard == 0 {
+        let families: [(&str, &[u8]); 5] = [("list", &[0]), ("dict", &[1]), ("grid", &[2]), ("mixed", &[0, 1, 2]), ("meta", &[2, 3, 4, 1])];
+        let mut idx = 0u64;
+        for (fam, kinds) in families {
+            for d in [1usize, 2, 3, 5, 8, 13, 21, 34, 40, 42, 55, 64, 89, 100, 120, 126, 127] {
+                let i = idx;
+                idx += 1;
+                // serde_json counts JSON levels: a grid level is an object, an array and an object
+                let json_levels = if kinds.iter().any(|k| *k >= 2) { 3 * d } else { d };
+                // (+1: the innermost scalar may itself be an object, e.g. a Ref)
+                if json_levels + 1 > 127 {
+                    continue;
+                }
+                if !ctx.begin("deep-chain", i) {
+                    continue;
+                }
+                let mut rng = ctx.case_rng("deep-chain", i);
+                let m = crate::gen::deep_chain(&mut rng, d, kinds);
+                ctx.eval(&format!("deep-chain:{fam}"), m.fp(), true);
+                ctx.note_max("max_nesting_depth_round_tripped", d as f64);
+                let (enc, dec) = ((d % 4) as u8, ((d / 4) % 4) as u8);
+                if let Err(f) = json_roundtrip(&m, 0, enc, dec) {
+                    report(ctx, &m, 0, enc, dec, f);
+                }
+            }
+        }
+    }
 }
